@@ -14,6 +14,7 @@ RULE = (
     "SVD, low rank, near-antiparallel pair, duplicated rows, zero rows, stationary, entrywise non-negative, row "
     "norms over 12 decades), 1<=m<=7, 1<=n<=10 (one case in four widened by 90 / 1500 Gaussian or 3000 zero columns), rescaled to "
     "s = 10^[0.05,9] x norm_eps (70%) or {1e-3,0.5,0.9} x norm_eps (30%); "
+    "J optionally delivered in a reused tensor object that held another matrix at the previous call of the same instance; "
     "u in {None, uniform, random over 3 decades with optional zeros}; norm_eps in 10^[-8,-1], reg_eps in "
     "10^[-10,-1]. Oracle: exhaustive active-set enumeration (2^m KKT systems, NumPy float64) of "
     "min v^T(JJ^T/s^2 + reg_eps I)v s.t. v >= u; compares A(J) with J^T w* and A.weighting(J) with w*. "
@@ -65,7 +66,9 @@ def _case(draw):
     if s > 0:
         J = J * (rel * norm_eps / s)
     return {"agg": agg, "J": J.tolist(), "dtype": mc["dtype"], "family": mc["family"], "pref": pref,
-            "norm_eps": norm_eps, "reg_eps": reg_eps, "extra_cols": extra, "xseed": xseed}
+            "norm_eps": norm_eps, "reg_eps": reg_eps, "extra_cols": extra, "xseed": xseed,
+            # a quarter of the cases: the matrix arrives in a reused buffer that held another matrix at the previous call
+            "reused_buffer": draw(st.sampled_from([True, False, False, False]))}
 
 
 def parts(tier):
@@ -132,6 +135,16 @@ def run_case(case) -> Outcome:
         except ArithmeticError:
             out.excluded = "reference-inconclusive"
             return out
+    if case.get("reused_buffer"):
+        out.cls("reused-buffer")
+        buf = torch.tensor(np.random.default_rng(case.get("xseed", 0)).standard_normal(tuple(Jt.shape)) * max(s, 1e-300),
+                           dtype=Jt.dtype)
+        try:
+            A(buf)
+        except Exception:  # noqa: BLE001 - the warm-up matrix is arbitrary; only the measured call matters
+            pass
+        buf.copy_(Jt)
+        Jt = buf
     r = out.call("solver-failure", A, Jt)
     w = out.call("solver-failure-weighting", A.weighting, Jt)
     if r is RAISED or w is RAISED:
